@@ -536,6 +536,11 @@ RETRY:
 		}
 		res := fullProof.MergeSparse(sparseProof)
 		allValidSignatures = allValidSignatures && res.AllValidSignatures
+		if !res.IncreasedSignatures {
+			// None of the offered signatures for this block hash verified,
+			// so there is nothing to apply for it.
+			continue
+		}
 		voteUpdates[blockHash] = tmi.VoteUpdate{
 			Proof:       fullProof,
 			PrevVersion: curPrevoteState.PrevoteBlockVersions[blockHash],
@@ -543,6 +548,11 @@ RETRY:
 	}
 
 	if len(voteUpdates) == 0 {
+		if !allValidSignatures {
+			// Every candidate signature failed verification.
+			return tmconsensus.HandleVoteProofsBadSignature
+		}
+
 		// We must have been unable to build the sign bytes or signature proof.
 		// Ignore the message for now.
 		return tmconsensus.HandleVoteProofsNoNewSignatures
@@ -894,6 +904,11 @@ RETRY:
 		}
 		res := fullProof.MergeSparse(sparseProof)
 		allValidSignatures = allValidSignatures && res.AllValidSignatures
+		if !res.IncreasedSignatures {
+			// None of the offered signatures for this block hash verified,
+			// so there is nothing to apply for it.
+			continue
+		}
 		voteUpdates[blockHash] = tmi.VoteUpdate{
 			Proof:       fullProof,
 			PrevVersion: curPrecommitState.PrecommitBlockVersions[blockHash],
@@ -901,6 +916,11 @@ RETRY:
 	}
 
 	if len(voteUpdates) == 0 {
+		if !allValidSignatures {
+			// Every candidate signature failed verification.
+			return tmconsensus.HandleVoteProofsBadSignature
+		}
+
 		// We must have been unable to build the sign bytes or signature proof.
 		// Ignore the message for now.
 		return tmconsensus.HandleVoteProofsNoNewSignatures
